@@ -51,37 +51,37 @@ var sAttrs = []sAttr{
 func sPrefix(k int) wPrefix { return wPrefix{IP: [4]byte{10, 20, byte(k), 0}, Len: 24 + k%9} }
 
 type sConnScript struct {
-	asn        uint32 // AS number the peer presents
-	as4        bool   // peer offers the 4-octet capability
-	dropInHS   bool   // close right after reading the session's OPEN
-	dropAfter  int    // close after this many UPDATE messages (-1: never)
-	dropMid    bool   // ... after additionally reading half of the next message
+	asn       uint32 // AS number the peer presents
+	as4       bool   // peer offers the 4-octet capability
+	dropInHS  bool   // close right after reading the session's OPEN
+	dropAfter int    // close after this many UPDATE messages (-1: never)
+	dropMid   bool   // ... after additionally reading half of the next message
 }
 
 type sPeer struct {
-	t        *testing.T
-	ln       net.Listener
-	myASN    uint32 // the session's AS number (what its OPEN must say)
-	ibgp     bool
-	mu       sync.Mutex
-	trace    []string
-	human    []string
-	nconn    int
-	scripts  []sConnScript // consumed one per accepted connection; then def
-	def      sConnScript
-	cur      *sPeerConn
-	fails    []([3]string) // sig, what
-	msgs     int
-	kalives  int
-	closedAt int // len(trace) when Close returned, -1 before
-	sess     *session
-	done     bool
-	refused  int
-	capRand  *rand.Rand // used by serve() only: capability of unscripted connections
-	lastCap  int        // capability of the previous established connection: -1 none, 0 off, 1 on
+	t                    *testing.T
+	ln                   net.Listener
+	myASN                uint32 // the session's AS number (what its OPEN must say)
+	ibgp                 bool
+	mu                   sync.Mutex
+	trace                []string
+	human                []string
+	nconn                int
+	scripts              []sConnScript // consumed one per accepted connection; then def
+	def                  sConnScript
+	cur                  *sPeerConn
+	fails                []([3]string) // sig, what
+	msgs                 int
+	kalives              int
+	closedAt             int // len(trace) when Close returned, -1 before
+	sess                 *session
+	done                 bool
+	refused              int
+	capRand              *rand.Rand // used by serve() only: capability of unscripted connections
+	lastCap              int        // capability of the previous established connection: -1 none, 0 off, 1 on
 	flipOnOff, flipOffOn int
-	widthOK  int // eBGP UPDATEs whose AS_PATH width matched the connection's capability
-	slow     bool // pace accepts (special schedule: bounds the trace if the session reconnects in a tight loop)
+	widthOK              int  // eBGP UPDATEs whose AS_PATH width matched the connection's capability
+	slow                 bool // pace accepts (special schedule: bounds the trace if the session reconnects in a tight loop)
 }
 
 type sPeerConn struct {
@@ -91,7 +91,7 @@ type sPeerConn struct {
 	estab   bool
 	dropped bool // by the peer's own script
 	gone    bool
-	arm     int  // drop after this many further UPDATEs (-1 none)
+	arm     int // drop after this many further UPDATEs (-1 none)
 	armMid  bool
 	nupd    int
 }
